@@ -12,3 +12,12 @@ VERIF = os.path.dirname(os.path.dirname(os.path.abspath(__file__)))
 
 class AnalysisError(Exception):
     """The analyser cannot decide (vanished anchor, unresolvable construct): exit 2, never a VIOLATION."""
+
+
+class Decided(Exception):
+    """Raised instead of AnalysisError when an anchor cannot be recognised any more but the check has already found a
+    decisive violation: the violations are reported (exit 1) instead of 'cannot decide'."""
+
+    def __init__(self, chk, msg):
+        super().__init__(msg)
+        self.chk = chk
